@@ -37,6 +37,7 @@ type facts struct {
 	InitCalls    [][3]string         `json:"init_calls"`    // file, func, method called on the receiver
 	LockUse      [][3]string         `json:"lock_use"`      // file, func, Lock|RLock|none
 	SQLNid       [][3]string         `json:"sql_nid"`       // file, func, verdict for every raw SQL literal on keto_relation_tuples
+	StructFields [][3]string         `json:"struct_fields"` // file, struct type, "field: type" for every field of the engines (they hold their dependencies and nothing else)
 	UUIDDerive   [][3]string         `json:"uuid_derive"`   // file, func, "NewV5:<namespace argument>" for every uuid.NewV5 call / "calls:<method>" for the mapping methods a mapping method calls on its receiver
 	BatchGuards  [][3]string         `json:"batch_guards"`  // file, func, comparison operator of len(…Tuples) against BatchCheckMaxBatchSize()
 	Misc         map[string]string   `json:"misc"`
@@ -290,6 +291,32 @@ func (f *facts) depth(repo, rel, depthVar string, callees map[string]bool) {
 			return true
 		})
 	}
+}
+
+// structFields: the fields of a struct type (the engines must be stateless: whatever a request needs
+// lives in the request's context, not in the engine that serves every request and every tenant).
+func (f *facts) structFields(repo, rel, typ string) {
+	af := f.parse(repo, rel)
+	ast.Inspect(af, func(n ast.Node) bool {
+		ts, ok := n.(*ast.TypeSpec)
+		if !ok || ts.Name.Name != typ {
+			return true
+		}
+		st, ok := ts.Type.(*ast.StructType)
+		if !ok {
+			return true
+		}
+		for _, fld := range st.Fields.List {
+			ty := exprString(f.fset, fld.Type)
+			if len(fld.Names) == 0 {
+				f.StructFields = append(f.StructFields, [3]string{rel, typ, "(embedded): " + ty})
+			}
+			for _, nme := range fld.Names {
+				f.StructFields = append(f.StructFields, [3]string{rel, typ, nme.Name + ": " + ty})
+			}
+		}
+		return false
+	})
 }
 
 // uuidDerive: where name UUIDs come from: the namespace argument of every uuid.NewV5 call of the file, and
@@ -740,6 +767,8 @@ func main() {
 	f.lockUse(*repo, "internal/x/graph/graph_utils.go")
 	f.batchGuards(*repo, "internal/check/handler.go")
 	f.uuidDerive(*repo, "internal/persistence/sql/uuid_mapping.go")
+	f.structFields(*repo, "internal/check/engine.go", "Engine")
+	f.structFields(*repo, "internal/expand/engine.go", "Engine")
 	f.schemaDefaults(*repo, "embedx/config.schema.json")
 
 	// ---- emit
@@ -797,6 +826,7 @@ func main() {
 	table3("sqlNid", f.SQLNid)
 	table3("batchGuards", f.BatchGuards)
 	table3("uuidDerive", f.UUIDDerive)
+	table3("structFields", f.StructFields)
 	// translated depth conditions and depth arguments (regenerated model fragments)
 	b.WriteString("\n/-! Depth tests and depth arguments of the engines, translated from the Go expressions. -/\n")
 	for _, d := range f.leanDefs {
